@@ -261,7 +261,7 @@ fn scenario(p: &TxwParams, faults: bool, rep: &Report) -> Result<(), String> {
     if p.mode == "transaction" {
         // (in session mode an idle client legitimately keeps its server)
         let mut rng = Rng::new(p.seed ^ 0x1D1E);
-        let endings = ["simple_ok", "simple_error_pre", "simple_error_mid", "copy_out_error_mid", "copy_out_ok", "copy_in_fail", "copy_in_ok", "batch_parse_error", "block_commit", "block_error_rollback"];
+        let endings = ["simple_ok", "simple_error_pre", "simple_error_mid", "copy_out_error_mid", "copy_out_ok", "copy_in_fail", "copy_in_ok", "batch_parse_error", "block_commit", "block_error_rollback", "block_copy_in_ok_commit", "block_copy_out_ok_commit"];
         let k = rng.range(1, 4) as usize;
         let mut idlers = vec![];
         for i in 0..k {
@@ -293,6 +293,17 @@ fn scenario(p: &TxwParams, faults: bool, rep: &Report) -> Result<(), String> {
                     c.send(&b).map_err(|e| e.to_string()).and_then(|_| c.read_until_ready(10_000).map(|_| ()).map_err(|(m, e)| format!("{:?} {}", e, summarize(&m))))
                 }
                 "block_commit" => run(&mut c, format!("BEGIN {}", tag(&id, &q(1), ""))).and_then(|_| run(&mut c, format!("COMMIT {}", tag(&id, &q(2), "")))),
+                // a successful COPY inside an explicit transaction block, committed
+                "block_copy_in_ok_commit" => run(&mut c, format!("BEGIN {}", tag(&id, &q(1), "")))
+                    .and_then(|_| {
+                        let st = crate::wl::Step { qid: q(2), kind: crate::wl::StepKind::CopyIn { chunks: vec![b"1\n".to_vec(), b"2\n".to_vec()], fail: false }, bytes: crate::proto::query(&format!("COPY t FROM STDIN {}", tag(&id, &q(2), ""))), what: "copy_in".into(), readies: 1, cuts: vec![] };
+                        let r = crate::wl::run_step(&mut c, &st, 10_000);
+                        if matches!(r.outcome, Outcome::Ok) { Ok(()) } else { Err(format!("{:?}", r.outcome)) }
+                    })
+                    .and_then(|_| run(&mut c, format!("COMMIT {}", tag(&id, &q(3), "")))),
+                "block_copy_out_ok_commit" => run(&mut c, format!("BEGIN {}", tag(&id, &q(1), "")))
+                    .and_then(|_| run(&mut c, format!("COPY t TO STDOUT {}", tag(&id, &q(2), "rows=3"))))
+                    .and_then(|_| run(&mut c, format!("COMMIT {}", tag(&id, &q(3), "")))),
                 _ => run(&mut c, format!("BEGIN {}", tag(&id, &q(1), "")))
                     .and_then(|_| run(&mut c, format!("SELECT 1 {}", tag(&id, &q(2), "err=pre"))))
                     .and_then(|_| run(&mut c, format!("ROLLBACK {}", tag(&id, &q(3), "")))),
